@@ -40,7 +40,7 @@ CHECKS = {
          "KnowledgeBase. Concurrent: 3-thread x 4-op histories recorded from the real object are each checked by TLC for a "
          "linearization against the sequential spec (real-time order respected, every result and the final list explained).",
          "DESIGN.md §4 C15",
-         "Sequential part exhaustive over the stated alphabet by state graph (not by history) plus all histories to depth 3-4 and "
+         "Sequential part exhaustive over the stated alphabet by state graph (not by history) plus all histories to depth 2-3 over the full alphabet (with Fork and the AddGrl batches), every sequence to depth 5-6 over two names, and "
          "walks to 8; concurrent part validates only schedules that occurred in the stress runs; TLC and the harness projection are trusted.",
          "TLA+ sequential spec + TLC state-graph replay on the real object; TLC linearizability search over recorded concurrent histories (trace validation)"),
  "C13": ("model_checking",
